@@ -120,9 +120,9 @@ func runRemarshal(payload string) string {
 }
 
 func genRemarshal(g *G, tier string, emit func(string)) {
-	n := 6000
+	n := 20000
 	if tier == "thorough" {
-		n = 100000
+		n = 400000
 	}
 	for _, f := range []string{"c ~ ~ -", "j ~ ~ -"} {
 		for _, u := range []uint64{0, 1, math.MaxInt64, math.MaxInt64 + 1, math.MaxUint64} {
@@ -342,9 +342,9 @@ func storageLocs(v reflect.Value, out map[uintptr]bool, depth int) {
 }
 
 func genClone(g *G, tier string, emit func(string)) {
-	n := 6000
+	n := 20000
 	if tier == "thorough" {
-		n = 100000
+		n = 400000
 	}
 	for _, p := range []string{
 		"(env) (atlas 0) x (x 010203)", "(env) (atlas 0) (sl x) (sl (x 0102) (x nil) (x -))", "(env) (atlas 0) (mp s x) (mp ((s 6b) (x 090807)))",
@@ -633,9 +633,9 @@ func runHistory(payload string) string {
 }
 
 func genHistory(g *G, tier string, emit func(string)) {
-	n := 1500
+	n := 8000
 	if tier == "thorough" {
-		n = 30000
+		n = 200000
 	}
 	for i := 0; i < n; i++ {
 		isJSON := i%2 == 1
